@@ -58,6 +58,20 @@ Theorem C07_checkout_intact : forall H w o ob, Intact H w o ob ->
 Proof. exact checkout_intact. Qed.
 Print Assumptions C07_checkout_intact.
 
+(* directory targets: a tampered file object listed by a checked-out directory is not materialised
+   (CheckoutError for the whole checkout, the object dropped); an intact one is *)
+Theorem C07_checkout_dir_refuses : forall H w d ents n o ob, Tampered H w o ob -> In (n, o) ents ->
+  fst (fst (checkout_dir H w d ents)) = 5 /\
+  lookup o (w_objs (snd (checkout_dir H w d ents))) = None.
+Proof. exact checkout_dir_refuses. Qed.
+Print Assumptions C07_checkout_dir_refuses.
+
+Theorem C07_checkout_dir_intact : forall H w d ents n o ob, Intact H w o ob -> In (n, o) ents ->
+  exists ob', Intact H (snd (checkout_dir H w d ents)) o ob' /\
+              In (n, o_bytes ob') (snd (fst (checkout_dir H w d ents))).
+Proof. exact checkout_dir_intact. Qed.
+Print Assumptions C07_checkout_dir_intact.
+
 (* a store that verifies retains, for every id of the add, only an object whose bytes hash to
    the name - whatever the sources contain - provided the pre-existing object of that id is not a
    write-protected mismatch (trusted_ok), its state row is honest, and the copy gets a token
